@@ -65,8 +65,13 @@ class C01:
             before = snapshot(m.root)
             exp = m.parse(text)
             rc = t[ip]["rc"]
-            if exp.get("grey"):
+            if exp.get("grey") and not exp.get("grey_only_numerals"):
                 return None, None, info
+            if exp.get("grey"):
+                # only numerals whose acceptance the statement leaves open (a sign before a radix prefix, an explicit
+                # plus, leading blanks): rejecting is fine, but if the text is accepted the values are decided
+                if rc != 0:
+                    return None, None, info
             if exp["accept"] != (rc == 0):
                 kind = "accepted-invalid" if rc == 0 else "rejected-valid"
                 why = exp.get("why") or ""
